@@ -89,10 +89,13 @@ def c04_3(c: Ctx) -> None:
             continue
         found = True
         # name the construct through which the signal fact is lost: the last loop (else branch) on the witness before the return
-        last = next((s.node for s in reversed(p[:-1]) if s.node.kind == 'while'), None) or next((s.node for s in reversed(p[:-1]) if s.node.kind == 'if'), None)
-        via = f'exit of `{last.text(100)}`' if last is not None else 'no check'
         br = inline_branch(c, u)
         inline = any(s.node.ast is not None and s.node.ast is not br and q.lexically_in(s.node.ast, br, 'body') for s in p)
+        last = next((s.node for s in reversed(p[:-1]) if s.node.kind in ('while', 'for')), None) or next((s.node for s in reversed(p[:-1]) if s.node.kind == 'if'), None)
+        if last is not None and last.kind in ('while', 'for') and inline:
+            via = 'the bounded in-handler polling loop giving up'  # independent of how the bound is spelled (while counter / for range)
+        else:
+            via = f'exit of `{last.text(100)}`' if last is not None else 'no check'
         encl = q.enclosing(rn.ast, (ast.If, ast.While, ast.For, ast.Try, ast.With, ast.AsyncWith))
         at = f'under `{q.stmt_text(encl, 80)}`' if encl is not None else 'at function level'
         c.fail(u, f'return {at} reachable with the completion signal not known set, via {via}', 'in-handler await can return a child that is still pending (the bounded polling loop gives up)' if inline else 'await can return an event that is not complete', node=rn.ast, witness=c.path(g.entry, p))
